@@ -62,4 +62,11 @@ ThmXorTouch == U2(LAMBDA ra, rb :
 \* a region is contained in another iff ... its boundary is inside and (sanity of BdryIn):
 \* subset implies the boundary lies in the closed superset
 ThmBdryIn == U2(LAMBDA ra, rb : (rb # 0 /\ RSubset(rb, ra)) => BdryIn(rb, ra, TRUE))
+\* a transversal crossing lies strictly inside exactly one edge of each boundary, with a
+\* parameter strictly between 0 and 1
+ThmXings == U2(LAMBDA ra, rb : (ClassOf(ra,rb) = "T") =>
+      \A pt \in CrossPts(ra, rb) :
+          /\ Cardinality(EdgeHits(pt, ra)) = 1 /\ Cardinality(EdgeHits(pt, rb)) = 1
+          /\ \A hh \in EdgeHits(pt, ra) \cup EdgeHits(pt, rb) :
+                hh.par[2] # 0 /\ hh.par[1] * hh.par[2] > 0 /\ hh.par[1] * hh.par[1] < hh.par[2] * hh.par[2])
 =============================================================================
